@@ -131,6 +131,34 @@ func (in *Interp) bytesCompare(x, y Value) Value {
 	return mkInt(1, 64)
 }
 
+// errIs: errors.Is over opaque error chains (identity of the error value, then the wrapped operands).
+func (in *Interp) errIs(err, target Value, depth int) bool {
+	if err.R == nil || target.R == nil {
+		return err.R == nil && target.R == nil
+	}
+	if depth > 16 {
+		return false
+	}
+	ei, ti := err.R.(*IfaceV), target.R.(*IfaceV)
+	if ei.T == ti.T || types.Identical(ei.T, ti.T) {
+		if ei.T == errType {
+			if ei.V.R == ti.V.R {
+				return true
+			}
+		} else if eq := in.valEq(in.cur, ei.V, ti.V); eq.R == nil && eq.N == 1 {
+			return true
+		}
+	}
+	if oe, ok := ei.V.R.(*OpaqueErr); ok {
+		for _, w := range oe.Wrapped {
+			if in.errIs(w, target, depth+1) {
+				return true
+			}
+		}
+	}
+	return false
+}
+
 // gatePassed records the order in which goroutines that went through vx.Gate enter their next critical section.
 func (in *Interp) gatePassed() {
 	if g := in.cur; g != nil && g.gateKey != "" {
@@ -323,7 +351,27 @@ func init() {
 		},
 		// ---- fmt / errors ----
 		"fmt.Errorf": func(in *Interp, fr *Frame, a []Value) (Value, bool) {
-			return in.newErr("fmt.Errorf:"+concStrArg(a[0]), Value{}), true
+			// an opaque non-nil error that remembers the errors among its operands (the %w chain)
+			e := &OpaqueErr{Msg: "fmt.Errorf:" + concStrArg(a[0])}
+			if len(a) > 1 && a[1].R != nil {
+				for _, arg := range a[1].R.(*SliceV).S {
+					if arg.K == KIface && arg.R != nil {
+						e.Wrapped = append(e.Wrapped, arg)
+					}
+				}
+			}
+			return Value{K: KIface, R: &IfaceV{T: errType, V: Value{K: KOpaque, R: e}}}, true
+		},
+		"errors.Is": func(in *Interp, fr *Frame, a []Value) (Value, bool) {
+			return mkBool(in.errIs(a[0], a[1], 0)), true
+		},
+		"errors.Unwrap": func(in *Interp, fr *Frame, a []Value) (Value, bool) {
+			if a[0].R != nil {
+				if oe, ok := a[0].R.(*IfaceV).V.R.(*OpaqueErr); ok && len(oe.Wrapped) > 0 {
+					return oe.Wrapped[len(oe.Wrapped)-1], true
+				}
+			}
+			return nilErr, true
 		},
 		"fmt.Printf":  func(in *Interp, fr *Frame, a []Value) (Value, bool) { return tuple(mkInt(0, 64), nilErr), true },
 		"fmt.Sprintf": func(in *Interp, fr *Frame, a []Value) (Value, bool) { return mkStr("<sprintf>"), true },
